@@ -14,12 +14,12 @@ ObsBoundQ(o, b, q) == IF IsInf(b) THEN o.k = "inf" /\ o.n = (IF b > 0 THEN 1 ELS
 Reduce(q) == q        \* ObsEq tolerates unreduced rationals as long as the denominator divides
 
 Check(e) ==
-  LET s == <<<<e.s[1][1], e.s[1][2]>>, <<e.s[2][1], e.s[2][2]>>>>
-      o == e.o
+  LET s == IF e.which = "offs" THEN <<<<1, 1>>, <<1, 1>>>> ELSE <<<<e.s[1][1], e.s[1][2]>>, <<e.s[2][1], e.s[2][2]>>>>
+      o == IF e.which = "scal" THEN <<0, 0>> ELSE e.o
       X == <<<<e.x[1], 1>>, <<e.x[2], 1>>>>
       eqs == EqScale(e.a, s)
       expected == IF e.fail THEN "toofew" ELSE "finished"
-      vt == e.which \in {"all", "vars"}          \* a variable transform is supplied
+      vt == e.which \in {"all", "vars", "offs", "scal"}          \* a variable transform is supplied
   IN IF e.plain.outcome # expected THEN "plain_run_failed"
      ELSE IF e.trans.outcome # expected THEN "transformed_run_failed"
      ELSE IF ~SameSeq(e.plain.rows, e.trans.rows) THEN "evaluator_received_different_user_domain_vectors"
